@@ -984,9 +984,12 @@ class DocTest:
                         if DEBUG:
                             print('UNABLE TO CLEAN TRACEBACK. EXIT DUE TO DEBUG')
                             sys.exit(1)
-                        raise ValueError('Could not clean traceback: ex = {!r}'.format(_ex_dbg))
-                    else:
-                        self.failed_tb_lineno = found_lineno
+                        # The error did not pass through a frame of the
+                        # doctest itself (e.g. it arose while the output of
+                        # the part was collected). It still is a failure of
+                        # this part: attribute it to the end of its source.
+                        found_lineno = max(part.n_exec_lines, 1)
+                    self.failed_tb_lineno = found_lineno
 
                     self.exc_info = (ex_type, ex_value, tb)
 
